@@ -62,8 +62,9 @@ class ServerError(Exception):
 
 class Server:
     """one running instance of the real binary; cwd = docroot (that is what rws serves)"""
-    def __init__(self, docroot, threads=4, env=None, args=(), alloc=None, wrap=None, logdir=None, start_timeout=15, clean_env=True, capture_stdout=True):
+    def __init__(self, docroot, threads=4, env=None, args=(), alloc=None, wrap=None, logdir=None, start_timeout=15, clean_env=True, capture_stdout=True, ip='127.0.0.1'):
         self.docroot = os.fspath(docroot)
+        self.ip = ip                           # '::1': the server listens on (and its clients come from) an IPv6 address
         self.threads = threads
         self.extra_env = dict(env or {})
         self.args = list(args)
@@ -89,7 +90,7 @@ class Server:
         last = None
         for attempt in range(5):
             self.port = free_port()
-            argv = self.wrap + [BIN, '--ip=127.0.0.1', f'--port={self.port}', f'--thread-count={self.threads}']
+            argv = self.wrap + [BIN, f'--ip={self.ip}', f'--port={self.port}', f'--thread-count={self.threads}']
             if self.alloc is not None:
                 argv.append(f'--request-allocation-size-in-bytes={self.alloc}')
             argv += self.args
@@ -111,7 +112,7 @@ class Server:
                     last = f'exited at start-up ({_status(self.proc.returncode)}): ' + self.stderr()[-400:]
                     break
                 try:
-                    s = socket.create_connection(('127.0.0.1', self.port), timeout=1)
+                    s = socket.create_connection((self.ip, self.port), timeout=1)
                     # a connection without a request: the worker answers 400 to the empty read; drain it
                     try:
                         s.shutdown(socket.SHUT_WR)
@@ -198,7 +199,7 @@ class Server:
         the server closes.  Returns the bytes received (b'' when the server closed without answering).
         Raises socket.timeout / OSError (ConnectionResetError when the server closed with unread input
         before anything was received)."""
-        s = socket.create_connection(('127.0.0.1', self.port), timeout=timeout)
+        s = socket.create_connection((self.ip, self.port), timeout=timeout)
         try:
             s.setsockopt(socket.IPPROTO_TCP, socket.TCP_NODELAY, 1)
             s.sendall(raw)
